@@ -220,7 +220,7 @@ func sameMemValue(a, b ssa.Value) bool {
 	}
 	// a store reachable from a (without passing b) from which b is reachable?
 	var stores []ssa.Instruction
-	eachInstr(fn, func(in ssa.Instruction) {
+	eachInstrRaw(fn, func(in ssa.Instruction) {
 		if isStore(in) {
 			stores = append(stores, in)
 		}
